@@ -241,7 +241,15 @@ func runC18(c *Ctx) {
 	}
 	// session meta events
 	c.Fields(r4, rlm+"onJoin", "on_join publication", "wamp.Publish", nil, map[string]string{"Topic": `^"wamp\.session\.on_join"$`}, 1)
-	c.Fields(r4, rlm+"onLeave", "on_leave publication", "wamp.Publish", nil, map[string]string{"Topic": `^"wamp\.session\.on_leave"$`}, 1)
+	notTestament := func(f map[string][]string) bool { // testament publications (their topics come from the stored testaments) are C05.R6's
+		for _, v := range f["Topic"] {
+			if strings.Contains(v, "testaments") {
+				return false
+			}
+		}
+		return true
+	}
+	c.Fields(r4, rlm+"onLeave", "on_leave publication", "wamp.Publish", notTestament, map[string]string{"Topic": `^"wamp\.session\.on_leave"$`}, 1)
 	c.Reach(r4, rlm+"onJoin", "session joins the table before on_join is published", ReachSpec{Stop: `^send:%r\.actionChan<-closure:router\.\(\*realm\)\.onJoin\$1$`, Target: `^send:call:invoke:wamp\.Peer\.Send\[%r\.metaPeer\]`, Want: false})
 	c.R.Floor(r4, 30)
 
